@@ -24,7 +24,7 @@ ASSUMPTIONS = ['base calls are only checked where every sensible likelihood agre
                'with identical quality multisets give N; one base dominating in count and in every quality gives that base',
                'the MD tag is parsed tolerantly (missing zero separators accepted): only its meaning is compared with the reference']
 MIN_NONTRIVIAL = {'quick': 150, 'thorough': 30000}
-REQUIRED_MONITORS = ['history:grown_molecules', 'lib:reads_with_indel', 'ret:deduplicate_majority', 'reads:checked', 'reads:gapped', 'reads:reverse', 'bases:decidable_checked', 'bases:conflict_N_expected', 'bases:model_checked', 'bases:near_tie_checked', 'lib:near_tie_planted', 'lib:molecules_over_their_cap',
+REQUIRED_MONITORS = ['history:grown_molecules', 'lib:reads_with_indel', 'ret:deduplicate_majority', 'reads:checked', 'reads:gapped', 'reads:reverse', 'bases:decidable_checked', 'bases:conflict_N_expected', 'bases:model_checked', 'bases:near_tie_checked', 'lib:near_tie_planted', 'lib:molecules_over_their_cap', 'lib:molecule_at_contig_start',
                      'cli:consensus_reads_checked', 'split:max_N_span']
 SHARD_TIMEOUT = {'quick': 900, 'thorough': 5400}
 
@@ -305,8 +305,13 @@ def run_case(case):
     recs, truths = [], {}
     rid = 1
     for name, ln in contigs:
-        for _ in range(r.randint(2, 6)):
+        first_base = r.random() < 0.4
+        for k_ in range(r.randint(2, 6)):
             pos = r.randrange(900, ln - 900)
+            if k_ == 0 and first_base:
+                # a molecule whose coverage begins on the very first base of the contig (reference position 0)
+                pos = 0 if method == 'nla' else 1
+                acc.count('lib:molecule_at_contig_start')
             if method == 'nla':
                 if 'CATG' in gen.get(name)[pos - 8:pos + 12]:
                     continue
@@ -314,7 +319,7 @@ def run_case(case):
             for _ in range(r.randint(1, 2)):
                 umi = F.rand_dna(r, 3)
                 cell = r.randint(1, 2)
-                reverse = r.random() < 0.5
+                reverse = r.random() < 0.5 and pos > 5
                 for _ in range(r.choice([1, 2, 3, 4, 4, 5, 6])):
                     rl = r.randint(30, 40)
                     qual = None
